@@ -406,3 +406,35 @@ func RunC10(c *core.Ctx) {
 		"the WebSocket transport: sequentially in C17, concurrently in the whole-broker stage over a fake frame sink that allows one writer at a time (as gorilla does); here: the concurrent write queue in isolation (forced schedules, stress) and behind a whole broker with concurrent publishers (stress)")
 	c.Finish()
 }
+
+// Bulk: one writer, more queued bytes than any configured-size assumption survives: `queued` rate-limited writes of
+// `size` bytes each pile up in the write queue (no flush in between), then the limiter lets one write through (which
+// flushes the queue), then the timer flushes once more. Everything must reach the socket, in order, once.
+func Bulk(queued, size int, label string) *core.Trace {
+	sock := &fakeSocket{}
+	conn := listener.VerifNewConn(sock, 60, false)
+	writers := []string{"w1"}
+	n := 0
+	conn.VerifSetLimited(true)
+	for i := 0; i < queued; i++ {
+		n++
+		conn.Write(encodePacket(0, n, size))
+	}
+	conn.VerifSetLimited(false)
+	n++
+	conn.Write(encodePacket(0, n, size)) // not limited, queue not empty: enqueue + flush
+	conn.VerifSetLimited(true)
+	n++
+	conn.Write(encodePacket(0, n, 100))
+	conn.Flush() // the timer
+	conn.Close()
+	var all []byte
+	sock.mu.Lock()
+	for _, w := range sock.writes {
+		all = append(all, w...)
+	}
+	sock.mu.Unlock()
+	tr := &core.Trace{Label: label}
+	tr.Events = append(tr.Events, core.Ev(map[string]any{"e": "stream", "rate": 60, "writers": writers, "n": n, "stream": decode(all, writers), "queued_bytes": queued * (size + 5)}))
+	return tr
+}
